@@ -288,7 +288,7 @@ def object_free_probes():
     def add(label, item, vc='any'):
         P.append((label, vc, item))
     for a in ALG:
-        for ln in (0, 1, 56, 64, 128, 192, 256, 512, 2 ** 31 - 1):
+        for ln in (0, 1, 7, 40, 56, 64, 100, 112, 128, 168, 192, 256, 384, 448, 512, 1024, 2048, 2 ** 31 - 1):
             add('create|alg=%s|len=%d' % (a.name, ln), (lambda a=a, ln=ln: W.p_create(W.sym_attrs(a, ln))))
     add('create|no-mask', lambda: W.p_create(W.sym_attrs(masks=None)))
     add('create|no-attrs', lambda: W.p_create([]))
@@ -343,6 +343,24 @@ def object_free_probes():
         object_type=E.ObjectType.SYMMETRIC_KEY, template_attribute=W.template([]))))
     for f in E.KeyFormatType:
         add('register|sym|format=%s' % f.name, (lambda f=f: W.p_register(_sym_with_format(f))))
+    # key blocks built at the codec level (the object model of the client library refuses to build
+    # them, a foreign client does not): declared length x value length, and every key format type for
+    # every kind of key
+    for kind_, ot_ in (('sym', E.ObjectType.SYMMETRIC_KEY), ('public', E.ObjectType.PUBLIC_KEY),
+                       ('private', E.ObjectType.PRIVATE_KEY), ('secret', E.ObjectType.SECRET_DATA)):
+        if kind_ != 'secret':
+            for f in E.KeyFormatType:
+                add('register|core-%s|format=%s' % (kind_, f.name),
+                    (lambda kind_=kind_, ot_=ot_, f=f: _core_register(kind_, ot_, fmt=f)))
+        add('register|core-%s|no-algorithm' % kind_, (lambda kind_=kind_, ot_=ot_: _core_register(kind_, ot_, no_alg=True)))
+        add('register|core-%s|no-algorithm-no-length' % kind_,
+            (lambda kind_=kind_, ot_=ot_: _core_register(kind_, ot_, no_alg=True, length=None)))
+        for ln in (None, 0, 8, 100, 128, 256, 1024, 2 ** 31 - 1):
+            for vl in (None, 0, 1, 16, 17):
+                if ln is None and vl is None:
+                    continue
+                add('register|core-%s|len=%s|value=%s' % (kind_, ln, vl),
+                    (lambda kind_=kind_, ot_=ot_, ln=ln, vl=vl: _core_register(kind_, ot_, length=ln, value_len=vl)))
     add('register|sym|len0', lambda: W.p_register(W.pobjects.SymmetricKey(ALG.AES, 0, b'')))
     add('register|sym|huge-length-attr', lambda: W.p_register(W.pie_symmetric(), [
         W.attr(AT.CRYPTOGRAPHIC_LENGTH, 2 ** 31 - 1)]))
@@ -367,6 +385,10 @@ def object_free_probes():
         at = AT(n) if n in [a.value for a in AT] else n
         add('locate|%s' % n, (lambda at=at, v=v: W.p_locate([W.attr(at, v)])))
         add('locate|%s|twice' % n, (lambda at=at, v=v: W.p_locate([W.attr(at, v), W.attr(at, v)])))
+    for dv in (0, -1, 1, 2 ** 31 - 1, 2 ** 31, 2 ** 32, 2 ** 40, 2 ** 62, 2 ** 63 - 1, -2 ** 31, -2 ** 62):
+        add('locate|date=%d' % dv, (lambda dv=dv: W.p_locate([W.attr(AT.INITIAL_DATE, dv)])))
+        add('locate|date-range=%d' % dv, (lambda dv=dv: W.p_locate([W.attr(AT.INITIAL_DATE, 5),
+                                                                     W.attr(AT.INITIAL_DATE, dv)])))
     add('locate|three-dates', lambda: W.p_locate([W.attr(AT.INITIAL_DATE, W.T0)] * 3))
     for off, mx in ((0, 0), (-1, None), (None, -1), (5, 2), (2 ** 31 - 1, 2 ** 31 - 1)):
         add('locate|offset=%s|max=%s' % (off, mx), (lambda off=off, mx=mx: W.p_locate([], mx, off)))
@@ -415,6 +437,25 @@ def object_free_probes():
                      ('POLL', 'PollRequestPayload')):
         add('unsupported|%s' % opn, (lambda opn=opn, cls=cls: (E.Operation[opn], getattr(W.payloads, cls)())))
     return P
+
+
+def _core_register(kind, ot, fmt=None, length='keep', value_len=None, no_alg=False):
+    """Register request whose managed object is converted from a valid one and then altered at the
+    codec level (key format type, declared cryptographic length, length of the key value)."""
+    pie = {'sym': W.pie_symmetric, 'public': W.pie_public, 'private': W.pie_private,
+           'secret': W.pie_secret}[kind]()
+    secret = W.OBJ_FACTORY.convert(pie)
+    kb = secret.key_block
+    if fmt is not None:
+        kb.key_format_type = W.misc.KeyFormatType(fmt)
+    if length != 'keep':
+        kb.cryptographic_length = None if length is None else W.cattrs.CryptographicLength(length)
+    if no_alg:
+        kb.cryptographic_algorithm = None
+    if value_len is not None:
+        kb.key_value = W.cobjects.KeyValue(W.cobjects.KeyMaterial(b'\x5a' * value_len))
+    return E.Operation.REGISTER, W.payloads.RegisterRequestPayload(
+        object_type=ot, template_attribute=W.template([]), managed_object=secret)
 
 
 def _sym_with_format(f):
